@@ -315,4 +315,27 @@ def rule_421(ctx):
     # the class must be convertible by the taker's own give-back handlers (hierarchy), checked by TOKEN through issub
 
 
-RULES = [rule_token, rule_who, rule_421]
+def rule_queue_kind(ctx):
+    p = ctx.p
+    ctx.rule("C11.QUEUE", "the port pool is a priority queue of (retry priority, port): a port put back after EADDRINUSE with a lower priority comes out AFTER the untried ones "
+                          "(a LIFO/FIFO hands the same busy port straight back and the 'already viewed' test turns it into 421 while free ports remain)")
+    pool = pool_attr(p)
+    init = p.method("Server", "__init__")
+    ctors = [n.value for n in walk_no_nested(init) if isinstance(n, ast.Assign) and any(isinstance(t, ast.Attribute) and t.attr == pool for t in n.targets) and isinstance(n.value, ast.Call)]
+    if not ctors:
+        raise AnalysisError("anchor=construction of the port pool in Server.__init__ not found")
+    for c in ctors:
+        kind = (dotted(c.func) or "").split(".")[-1]
+        ctx.ob("C11.QUEUE", c, f"the pool is an asyncio.{kind}", kind == "PriorityQueue",
+               f"the port pool is an asyncio.{kind}, not a PriorityQueue: the (priority, port) pairs no longer order the retries - a busy port that was put back is handed out again "
+               "at once, found 'already viewed' and the session is refused with 421 although free ports remain", construct=f"queue:{kind}")
+
+
+def rule_borrowed_r4(ctx):
+    from .c03 import rule_drop
+    ctx.rule("C11.DROP", "a session field that holds a listener is dropped only after close() and give-back: USER (re-login) forgets only the login fields, it does not delete the "
+                         "passive listener's future (shared with C03.DROP)")
+    ctx.borrow(rule_drop, {"C03.DROP": "C11.DROP"})
+
+
+RULES = [rule_token, rule_who, rule_421, rule_queue_kind, rule_borrowed_r4]
